@@ -186,6 +186,11 @@ def check_spec(spec):
         out.append((f'{P}/read-raises/{cname}/{R.exc_sig(ex)}', {'error': f'{type(ex).__name__}: {str(ex)[:500]}',
                                                                  'xml': xml1.decode()[:1500]}))
         return out, ctx
+    for which, obj in (('built', x), ('parsed', y)):
+        problems = C.read_law(obj)
+        if problems:
+            member = problems[0].split(':')[0].rsplit('.', 1)[-1].split('[')[0]
+            out.append((f'{P}/stored-value-not-read/{which}/{member}', {'problems': problems[:3], 'xml': xml1.decode()[:800]}))
     cx, cy = C.canon(x), C.canon(y)
     if cx != cy:
         d = C.diff(cx, cy)
@@ -384,12 +389,12 @@ def run(ctx):
     for n in skipped:
         ctx.note(f'skipped (library cannot instantiate it): {n}')
     ctx.count('classes_total', len(names))
-    per_class = 60 if ctx.tier == 'quick' else 500
+    per_class = 35 if ctx.tier == 'quick' else 500
     nshards = R.NPROC
     # interleave so that heavy classes spread over shards
     jobs = [(names[i::nshards], per_class) for i in range(nshards)]
     R.run_shards(ctx, __name__, 'shard_classes', jobs)
-    R.run_shards(ctx, __name__, 'shard_tree', [(12 if ctx.tier == 'quick' else 400,)] * nshards)
+    R.run_shards(ctx, __name__, 'shard_tree', [(6 if ctx.tier == "quick" else 400,)] * nshards)
 
 
 def replay(part, case):
